@@ -163,14 +163,19 @@ Proof.
     + inversion Hc'; subst. cbn. repeat split; auto. constructor; auto. apply slot_ty_ok; assumption.
   - (* store *)
     unfold slot_effect; cbn [p_op p_imms].
-    destruct imms as [|[k|?|?] [|? ?]]; cbn; try (repeat split; auto using slots_ok_nil).
-    destruct (a_stk a) as [|t ts] eqn:Ea; cbn; repeat split; auto using slots_ok_nil.
-    inversion Hc as [|v0 t' cur0 ts' Hv Hr]; subst.
-    cbv beta iota zeta delta [exec_op exec_pure] in H. cbn [imms_to_args app] in H.
-    destruct (k <? 256)%N; try discriminate. inversion H; subst.
-    apply slots_ok_store; assumption.
+    destruct imms as [|[k|?|?] [|? ?]].
+    all: try (cbn [a_stk a_sl a_rid a_fp]; split; [assumption | split; [apply slots_ok_nil | split; reflexivity]]).
+    destruct (a_stk a) as [|t ts] eqn:Ea.
+    + cbn [a_stk a_sl a_rid a_fp]. split; [assumption | split; [apply slots_ok_nil | split; reflexivity]].
+    + cbn [a_stk a_sl a_rid a_fp]. split; [assumption | split; [| split; reflexivity]].
+      inversion Hc as [|v0 t' cur0 ts' Hv Hr]; subst.
+      cbv beta iota zeta delta [exec_op exec_pure] in H. cbn [imms_to_args app] in H.
+      destruct (k <? 256)%N; try discriminate. inversion H; subst.
+      apply slots_ok_store; assumption.
   - (* stores *)
-    unfold slot_effect; cbn [p_op p_imms]. cbn. repeat split; auto using slots_ok_nil.
+    unfold slot_effect; cbn [p_op p_imms].
+    destruct imms as [|[k|?|?] [|? ?]].
+    all: cbn [a_stk a_sl a_rid a_fp]; split; [assumption | split; [apply slots_ok_nil | split; reflexivity]].
 Qed.
 
 Lemma not_proto_at_inv : forall p t, not_proto_at p t = true ->
@@ -376,7 +381,7 @@ Section Sound.
                        destruct (check_succs_one _ _ Hchk) as [Hle Hnp];
                        (eapply conf_next with (m := m) (a := a) (cur' := cur); solve [eauto])
                        || (eapply conf_next with (m := m) (a := a) (cur' := _ :: cur);
-                           [eassumption|eassumption|eassumption|reflexivity|reflexivity| | reflexivity | cbn; rewrite Hst; reflexivity | reflexivity ];
+                           [eassumption|eassumption|eassumption|reflexivity|reflexivity| | reflexivity | cbn; rewrite Hst; reflexivity | reflexivity | eassumption | reflexivity | reflexivity ];
                            cbn; constructor; [reflexivity | assumption]) ].
       - (* bnz *)
         destruct imms as [|[n|b|l] [|? ?]]; try discriminate Hstep.
@@ -426,18 +431,20 @@ Section Sound.
         { eapply stk_le_has; [|exact Sb]. apply stack_has_TA.
           - rewrite map_length. rewrite (stack_has_length _ _ S1). assumption.
           - intros t' Hin. apply in_map_iff in Hin. destruct Hin as [? [? ?]]; auto. }
-        split; [|intros; reflexivity].
+        split; [|split; [intros; reflexivity|]].
+        2: { cbn [m_st]. apply slots_ok_any. apply sl_le_nil_any. exact (le_at_sl _ _ _ _ L2 Hb). }
         cbn [frames_ok]. rewrite <- Rb, <- Fb.
         exists r. split; [assumption|]. split; [eapply find_rid_nonzero; eauto|]. split; [reflexivity|].
         exists ac, rest, c2, below. cbn [f_ret].
         split; [assumption|]. split; [assumption|]. split; [reflexivity|]. split; [assumption|]. split; [assumption|].
+        split; [apply sl_le_nil_any; exact (le_at_sl _ _ _ _ L1 Hac)|].
         rewrite <- Rac, <- Fac. exact Hfr.
       - (* retsub *)
         destruct (m_calls m) as [|f fs] eqn:Ec; try discriminate Hstep.
         destruct (nth_error rt (a_rid a)) as [r|] eqn:Er; try discriminate Hchk.
         destruct (Nat.eqb (a_rid a) 0) eqn:E0; try discriminate Hchk.
         cbn [frames_ok] in Hfr.
-        destruct Hfr as [r' [Er' [Nz [Hp [ac [rest_abs [lower [below' [Hac [Sac [Eb [Sl [Np Hfs]]]]]]]]]]]]].
+        destruct Hfr as [r' [Er' [Nz [Hp [ac [rest_abs [lower [below' [Hac [Sac [Eb [Sl [Np [Hany Hfs]]]]]]]]]]]]]].
         rewrite Er in Er'; inversion Er'; subst r'; clear Er'.
         destruct (a_fp a) eqn:Efp.
         + (* under proto *)
@@ -462,6 +469,7 @@ Section Sound.
             eapply stk_le_has; [|exact Sle]. unfold frame_rets.
             apply rev_F2. apply firstn_F2. apply skipn_F2. apply rev_F2. exact Hh. }
           split; [assumption|].
+          split; [|apply slots_ok_any; exact Hany].
           intros i Hi' Hp'. destruct (not_proto_at_inv _ _ Np) as [j [Hj Hq]]. congruence.
         + (* scratch convention *)
           rewrite Hp in Hstep. inversion Hstep; subst m'; clear Hstep.
@@ -475,6 +483,7 @@ Section Sound.
           { eapply stk_le_has; [|exact Sac]. apply stack_has_app; [|assumption].
             eapply stk_le_has; [exact Hh | exact Sle]. }
           split; [assumption|].
+          split; [|apply slots_ok_any; exact Hany].
           intros i Hi' Hp'. destruct (not_proto_at_inv _ _ Np) as [j [Hj Hq]]. congruence.
       - (* frame_dig *)
         destruct imms as [|[k|?|?] [|? ?]]; try discriminate Hstep.
@@ -503,6 +512,9 @@ Section Sound.
         * reflexivity.
         * cbn. constructor; assumption.
         * reflexivity.
+        * reflexivity.
+        * reflexivity.
+        * exact Hsl.
         * reflexivity.
         * reflexivity.
       - (* frame_bury *)
@@ -537,6 +549,9 @@ Section Sound.
         * reflexivity.
         * reflexivity.
         * reflexivity.
+        * exact Hsl.
+        * reflexivity.
+        * reflexivity.
       - (* proto *)
         destruct imms as [|[na|?|?] [|[nr|?|?] [|? ?]]]; try discriminate Hstep.
         rewrite (Hpr _ Hi eq_refl) in Hstep.
@@ -563,6 +578,7 @@ Section Sound.
             rewrite (stack_has_length _ _ Hh).
             f_equal. f_equal; [f_equal; lia | lia]. 
           - cbn [f_ret]. exact Hrest. }
+        split; [|cbn [m_st]; eapply slots_ok_le; [exact Hsl | exact (le_at_sl _ _ _ _ Hle Hb)]].
         intros i Hi' Hp'. destruct (not_proto_at_inv _ _ Hnp) as [j [Hj Hq]]. congruence. }
   Qed.
 
@@ -575,6 +591,7 @@ Section Sound.
     split; [assumption|]. split; [reflexivity|].
     split; [destruct (a_stk b); [constructor | discriminate]|].
     split; [rewrite <- Rb, <- Fb; cbn; auto|].
+    split; [|apply slots_ok_any; apply sl_le_nil_any; exact (le_at_sl _ _ _ _ Hle Hb)].
     intros i Hi Hp. destruct (not_proto_at_inv _ _ Hnp) as [j [Hj Hq]]. congruence.
   Qed.
 
